@@ -107,11 +107,11 @@ func collectRaceReports(c *Case) {
 		c.Count("race_reports", 1)
 		sig := raceSig(blk)
 		ck := checks[c.ID]
-		if ck != nil && ck.ID == "C19" {
+		if ck != nil && (ck.ID == "C19" || ck.ID == "C18") {
 			if len(blk) > 4000 {
 				blk = blk[:4000]
 			}
-			c.Violate("C19:race:"+sig, "data race reported by the race detector: "+sig, blk)
+			c.Violate(ck.ID+":race:"+sig, "data race reported by the race detector: "+sig, blk)
 		} else {
 			c.Distinct("race_sigs", sig)
 		}
